@@ -86,11 +86,13 @@ func (vm *Vm) EXTEND_REVERSED(items py.Tuple) {
 
 // Adds a traceback to the exc passed in for the current vm state
 func (vm *Vm) AddTraceback(exc *py.ExceptionInfo) {
+	// Lasti already points past the instruction that raised; the last byte
+	// of that instruction still maps to its own line.
 	exc.Traceback = &py.Traceback{
 		Next:   exc.Traceback,
 		Frame:  vm.frame,
 		Lasti:  vm.frame.Lasti,
-		Lineno: vm.frame.Code.Addr2Line(vm.frame.Lasti),
+		Lineno: vm.frame.Code.Addr2Line(vm.frame.Lasti - 1),
 	}
 }
 
